@@ -35,7 +35,7 @@ L311 = "stackscope/_lowlevel_cpython_311.py"
 L310 = "stackscope/_lowlevel_cpython_310.py"
 
 # ---- C01 / C02: exit-site recognition ------------------------------------
-m("c01-level-off-by-one", LL, "obj=frame_details.stack[block.level - 1].__self__,", "obj=frame_details.stack[block.level - 2].__self__,", "C01", "prog312,prog39")
+m("c01-level-off-by-one", LL, "obj=getattr(frame_details.stack[block.level - 1], \"__self__\", None),", "obj=getattr(frame_details.stack[block.level - 2], \"__self__\", None),", "C01", "prog312,prog39")
 m("c01-no-cleanup-throw-skip", LL, '                    and insns[idx + skip_insns].opname == "CLEANUP_THROW"', '                    and insns[idx + skip_insns].opname == "CLEANUP_THROW_"', "C01", "prog312")
 m("c01-handler-walk", L311, "        idx = bisect.bisect_left(handlers, (current + 1, 0))", "        idx = bisect.bisect_left(handlers, (current, 0))", "C01", "prog312,prog311")
 m("c01-f2-revert-jump-source", LL, "                ) and offs < insn.argval <= first_load:", "                ) and False:", "C01", "prog312,prog311")
@@ -48,7 +48,7 @@ m("c02-running-stack-trim", L311, "                stack_top_offset = stack_star
 m("c02-310-validity-limit", L310, "            stack_validity_limit = max(blk.level for blk in details.blocks)", "            stack_validity_limit = min(blk.level for blk in details.blocks)", "C02", "probe310,probe39")
 # ---- C03 -------------------------------------------------------------------
 m("c03-coro-tuple-order", GL, "        return (coro.cr_frame, coro.cr_await)", "        return (coro.cr_await, coro.cr_frame)", "C03", "chain312")
-m("c03-agen-await-refinement", GL, "        if agen.ag_running and agen.ag_await is None:", "        if agen.ag_running:", "C03", "chain312,chain39")
+m("c03-agen-await-refinement", GL, "        if agen.ag_running and (\n            agen.ag_frame.f_back is not None or agen.ag_await is None\n        ):", "        if agen.ag_running:", "C03", "chain312,chain39")
 m("c03-lineno-lazy", TY, "        if self.lineno == -1:\n            self.lineno = self.pyframe.f_lineno", "        if self.lineno == -1:\n            self.lineno = self.pyframe.f_code.co_firstlineno", "C03", "chain312")
 m("c03-asend-first-referent", GL, '            if hasattr(referent, "ag_frame"):  # pragma: no branch\n                return referent', '            return referent', "C03", "chain312")
 # ---- C04 -------------------------------------------------------------------
@@ -59,7 +59,7 @@ m("c04-dead-parent-revert", GL, "        and greenlet_getcurrent().parent is not
 m("c05-no-try-elaborate-frame", EX, "        except Exception as ex:\n            save_errors.append(ex)\n            frame.hide = False\n            replacement = PRUNE", "        except ZeroDivisionError as ex:\n            save_errors.append(ex)\n            frame.hide = False\n            replacement = PRUNE", "C05", "faults312")
 m("c05-no-try-fill-context", EX, "                    try:\n                        fill_context(context)\n                    except Exception as ex:\n                        save_errors.append(ex)", "                    fill_context(context)", "C05", "faults312")
 m("c05-error-dropped", EX, "            except Exception as ex:\n                unwrapped = None\n                save_errors.append(ex)", "            except Exception as ex:\n                unwrapped = None", "C05", "faults312")
-m("c05-always-first-error", EX, "            if len(errors) > 1:\n                error = ExceptionGroup(", "            if len(errors) > 100:\n                error = ExceptionGroup(", "C05", "faults312")
+m("c05-always-first-error", EX, "    if len(errors) > 1:\n        error = ExceptionGroup(", "    if len(errors) > 100:\n        error = ExceptionGroup(", "C05", "faults312")
 m("c05-f9-revert", GL, "            children.append(child_context)\n            _extract.fill_context(child_context)", "            _extract.fill_context(child_context)\n            children.append(child_context)", "C05", "faults312")
 m("c05-frameiter-errors", EX, "                    except Exception as ex:\n                        save_errors.append(ex)\n                        break", "                    except Exception as ex:\n                        break", "C05", "faults312")
 # ---- C06 -------------------------------------------------------------------
